@@ -51,3 +51,38 @@ def fixedpoint_reached(cx):
     cx.call('values', lambda ex, st, r, a, kw: statuses)
     j = z3.Int('j')
     cx.ensures(lambda st, r: truthy(r) == z3.ForAll([j], z3.Implies(z3.And(0 <= j, j < z3.Length(statuses.t)), z3.Not(CHG(statuses.t[j])))))
+
+
+@contract(F, 'FiniteFixedPointTyper._update_variable_status', ['C05'])
+def update_variable_status(cx):
+    """value sets only grow; has_changed is cleared only if the newly computed values were already contained (post-fixpoint test); an empty /
+    False result (dependence on a failed variable) fails the variable"""
+    newv = cx.set('new_values', DRef('Expr')); var = cx.ref('variable')
+    VALUES = z3.Function('status_values', REF, z3.SeqSort(REF)); STATUS = z3.Function('status_of', REF, REF)
+    state = V('map', (z3.Lambda([z3.Const('v', REF)], STATUS(z3.Const('v', REF))), z3.K(REF, z3.BoolVal(True))), kk=DRef(), vk=DRef('Status'))
+    cx.param(self=cx.obj('FiniteFixedPointTyper', state=state), variable=var, new_values=newv)
+    cx.field('values', lambda ex, st, o: st.vars.get('$values', V('set', VALUES(o.t), ek=DRef())))
+    y = z3.Const('y', REF)
+    subset = lambda a, b: z3.ForAll([y], z3.Implies(member(a, y), member(b, y)))
+    cx.call('issubset', lambda ex, st, r, a, kw: VB(subset(r.t, a[0].t)))
+    cx.st.vars['$failed'] = VB(False); cx.st.vars['$changed'] = V('none')
+
+    def fail(ex, st, r, a, kw):
+        st.vars['$failed'] = VB(True); return VNone()
+    cx.call('_fail_variable', fail, trusted='_fail_variable: marks the variable failed, locked and changed')
+
+    def ref_store(ex, st, o, attr, v):
+        if attr == 'values': st.vars['$values'] = v
+        elif attr == 'has_changed': st.vars['$changed'] = v
+    cx.set_hook('ref_store', ref_store)
+    old = VALUES(STATUS(var.t))
+
+    def post(st, r):
+        vals = st.vars.get('$values'); ch = st.vars['$changed']
+        final = vals.t if vals is not None else old
+        grow = subset(old, final)
+        empty = z3.Length(newv.t) == 0
+        return z3.And(grow, st['$failed'].t == empty,
+                      z3.Implies(z3.Not(empty), z3.And(z3.BoolVal(ch.kind == 'bool'), (ch.t if ch.kind == 'bool' else z3.BoolVal(True)) == z3.Not(subset(newv.t, old)),
+                                                       subset(newv.t, final))))
+    cx.ensures(post)
